@@ -193,10 +193,24 @@ def _named_local(fv, name):
 def _all_defs(fv, name):
     b = fv.b
     out = []
-    for l in range(len(b.local_tys)):
-        if b.local_name(l) != name:
+    live = fv.live_blocks()
+    for l0 in range(len(b.local_tys)):
+        if b.local_name(l0) != name:
             continue
+        # follow plain moves (`let x = helper(..)` after inlining: x = move tmp, tmp defined once per arm)
+        l, seen = l0, set()
+        while l not in seen:
+            seen.add(l)
+            ds = [d for d in fv.defs.get(l, []) if d[0] in live]
+            if len(ds) == 1 and ds[0][1] != "T" and ds[0][2].kind == "a" and ds[0][2].rv.op == "use" and \
+               ds[0][2].rv.ops[0].place is not None and ds[0][2].rv.ops[0].place.is_local() and \
+               len([d for d in fv.defs.get(ds[0][2].rv.ops[0].place.local, []) if d[0] in live]) > 1:
+                l = ds[0][2].rv.ops[0].place.local
+                continue
+            break
         for (bi, idx, obj) in fv.defs.get(l, []):
+            if bi not in live:
+                continue
             if idx == "T":
                 out.append(render(fv._call_expr(obj, 0)))
             elif obj.kind == "a" and obj.rv.ops:
